@@ -1322,7 +1322,8 @@ func (g *gen) genCase(tr *hx.Trace, id int) {
 		case x < 8:
 			u = g.boundaryInstant(hx.Pick(g.r, all))
 		default:
-			z := hx.Pick(g.r, zones)
+			// an offset change of one of the case's zones, the caller zones and the process zone included
+			z := hx.Pick(g.r, uniq(append(append([]string{c.local}, c.callers...), zones...)))
 			if ts := transByZone[z]; len(ts) > 0 {
 				u = hx.Pick(g.r, ts).at + hx.Pick(g.r, transDeltas)
 			} else {
@@ -1343,6 +1344,11 @@ func (g *gen) edgeCase(tr *hx.Trace, id int, ts []transition) {
 	tr.Linef("case %d kind=edge", id)
 	g.zonesForCase(c)
 	zone := ts[0].zone
+	if g.p(1, 4) {
+		// the process itself runs in the zone whose offset changes
+		c.local = zone
+		c.do("local " + hx.Hex(zone))
+	}
 	loc := mustLoc(zone)
 	var instants []int64
 	big := false
